@@ -16,7 +16,7 @@
 //!   features acknowledged and every ring stopped and disabled.  Control messages carry NEED_REPLY, so a step is complete
 //!   when its acknowledgement (for GET_VRING_BASE: its reply) arrived; after every step `Bench::barrier` makes sure that
 //!   everything readable has been dispatched.
-//! observation: one token per step, `<reply>/<dispatches>`:
+//! observation: one token per step, `<reply>/<dispatches>/<callbits>` (callbits: per ring, 1 = the ring holds a call descriptor):
 //!   reply: `ok` `fail` `closed` `timeout`, `b<next_avail>` (GET_VRING_BASE), `-` (guest-side step)
 //!   dispatches: the `handle_event` calls logged during the step, sorted, `+`-joined, each `t<thread>e<device_event>q<ring>`
 //!   where `<ring>` is the identity (base - 0x100) of slice[device_event] (`?` if it is not a ring of the scenario);
@@ -193,7 +193,15 @@ where
             }
             s
         };
-        out.push(format!("{}/{}", reply, d));
+        // which rings hold a call descriptor now (C11: GET_VRING_BASE drops the ring's kick and call descriptors)
+        let callbits: String = {
+            let g = b.shared.vrings.lock().unwrap();
+            match g.get(&0) {
+                Some(vs) => vs.iter().map(|v| if v.get_ref().get_call().is_some() { '1' } else { '0' }).collect(),
+                None => "?".into(),
+            }
+        };
+        out.push(format!("{}/{}/{}", reply, d, callbits));
     }
     b.finish();
     drop(sent);
